@@ -17,7 +17,7 @@ COMPONENTS = {'real': ['lib/efuns/file_utils.c', 'lib/efuns/file.c', 'lib/lpc/ob
               'stub': ['file layer (pass-through to a scratch mudlib, every call logged)', 'kernel sockets/clock/timer (simulated)']}
 ASSUMPTIONS = ['paths derived from an approved path by appending (directory entries of an approved directory, ".tmp" next to an approved save file) count as approved',
                'load_object/clone_object/find_object, #include and inherit are checked for confinement only (the property lists no master mediation for them)',
-               'ed() is not driven by this check']
+               'ed() is driven with the commands c/a/w/r/e/E/f/x/Q; the other editor commands do not touch files']
 
 EFUNS1 = ['read_file', 'write_file', 'rm', 'mkdir', 'rmdir', 'get_dir', 'get_dir2', 'stat', 'file_size', 'file_length', 'read_bytes', 'write_bytes',
           'read_buffer', 'write_buffer', 'tail', 'save_object', 'restore_object', 'dumpallobj', 'dump_prog', 'load_object', 'clone_object', 'find_object']
@@ -57,6 +57,23 @@ def gen(rng, tier, i):
             if rng.random() < 0.3: s = rng.choice(('', '/', 'd/')) + s
             return s
         p1 = path(); p2 = path() if two else None
+        if not two and rng.random() < 0.12:
+            # an ed() session on the file: every following line is an editor command, the last one leaves the editor
+            cmds.append('do fe %d ed %s' % (k, p1.encode().hex() or '00'))
+            pol.append(rng.choice(('1', '1', '1', '0', 'S:' + rng.choice(LEGAL).encode().hex())))
+            for _ in range(rng.randint(1, 6)):
+                r2 = rng.random()
+                if r2 < 0.25: cmds += ['1c' if rng.random() < 0.5 else 'a', 'edited text', '.']
+                elif r2 < 0.45: cmds.append('w')
+                elif r2 < 0.6: cmds.append('w ' + path())
+                elif r2 < 0.7: cmds.append('r ' + path())
+                elif r2 < 0.8: cmds.append(rng.choice(('e ', 'E ')) + path())
+                elif r2 < 0.9: cmds.append('f ' + path())
+                else: cmds.append('x')
+                rr = rng.random()
+                pol.append('1' if rr < 0.5 else ('0' if rr < 0.75 else ('S:' + (rng.choice(LEGAL) if rng.random() < 0.5 else rng.choice(HOSTILE)).encode().hex() if rr < 0.93 else 'E')))
+            cmds += ['Q', 'Q']
+            continue
         cmds.append('do fe %d %s %s%s' % (k, ef, p1.encode().hex() or '00', (' ' + (p2.encode().hex() or '00')) if two else ''))
         for _ in range(2 if two else 1):
             r = rng.random()
@@ -122,13 +139,18 @@ def check(plan, res):
                     v.append(Violation(PROP, 'mediation', '%s made the file call %s on %r but the master approved %r (asked %d times, %d denials)' % (ef, op, pth[:80], approvals, asked, denials),
                                        PROP + '/mediation/' + why + '/' + ef))
         cur = None; approvals = []; denials = 0; asked = 0; fscalls = []
+    ed_active = False
     for e in res.events:
         if e.kind == 'R':
             w = e.rest.split(' ')
             if w[0] == 'FE':
                 close_window(); cur = (w[1], w[2])
             elif w[0] == 'FEDONE':
+                was_ed = cur is not None and cur[1] == 'ed'
                 close_window()
+                if was_ed and w[2] != 'err': ed_active = True
+            elif w[0] == 'EDEXIT':
+                ed_active = False
             elif w[0] in ('VR', 'VW') and cur is not None:
                 asked += 1
                 asked_path = bytes.fromhex(w[2]).decode('latin-1') if len(w) > 2 and w[2] else ''
@@ -145,6 +167,7 @@ def check(plan, res):
             fscalls.append((op, paths))
         elif e.kind == 'cycle':
             close_window()
+            if ed_active: cur = ('edline', 'ed')      # every editor command line is judged on its own: approvals do not carry over
     close_window()
     # de-duplicate by class
     seen = set(); out = []
